@@ -401,12 +401,24 @@ impl Stream {
         if let Some(task) = self.send_task.take() {
             task.wake();
         }
+        #[cfg(feature = "verif-hooks")]
+        crate::verif::ev("stream.notify_open", || {
+            vec![
+                self.verif_serial,
+                u32::from(self.id) as i64,
+                self.open_task.is_some() as i64,
+            ]
+        });
         if let Some(task) = self.open_task.take() {
             task.wake();
         }
     }
 
     pub fn wait_open(&mut self, cx: &Context) {
+        #[cfg(feature = "verif-hooks")]
+        crate::verif::ev("stream.wait_open", || {
+            vec![self.verif_serial, u32::from(self.id) as i64]
+        });
         self.open_task = Some(cx.waker().clone());
     }
 
@@ -419,12 +431,28 @@ impl Stream {
     }
 
     pub fn notify_recv(&mut self) {
+        #[cfg(feature = "verif-hooks")]
+        crate::verif::ev("stream.notify_recv", || {
+            vec![
+                self.verif_serial,
+                u32::from(self.id) as i64,
+                self.recv_task.is_some() as i64,
+            ]
+        });
         if let Some(task) = self.recv_task.take() {
             task.wake();
         }
     }
 
     pub(super) fn notify_push(&mut self) {
+        #[cfg(feature = "verif-hooks")]
+        crate::verif::ev("stream.notify_push", || {
+            vec![
+                self.verif_serial,
+                u32::from(self.id) as i64,
+                self.push_task.is_some() as i64,
+            ]
+        });
         if let Some(task) = self.push_task.take() {
             task.wake();
         }
@@ -433,6 +461,10 @@ impl Stream {
     /// Set the stream's state to `Closed` with the given reason and initiator.
     /// Notify the send, receive, and push tasks, if they exist.
     pub(super) fn set_reset(&mut self, reason: Reason, initiator: Initiator) {
+        #[cfg(feature = "verif-hooks")]
+        let _verif = crate::verif::enter("stream.set_reset", || {
+            vec![self.verif_serial, u32::from(self.id) as i64]
+        });
         self.state.set_reset(self.id, reason, initiator);
         self.notify_send();
         self.notify_push();
@@ -652,5 +684,25 @@ impl Stream {
     /// Whether a send-side task is parked on this stream (verification hook, read-only).
     pub(super) fn verif_has_send_task(&self) -> bool {
         self.send_task.is_some()
+    }
+}
+
+#[cfg(feature = "verif-hooks")]
+impl Stream {
+    /// serial, id, ref_count and the queue-membership flags as a bit mask (verification hook, read-only).
+    pub(super) fn verif_life(&self, index: i64) -> Vec<i64> {
+        let mask = (self.is_pending_send as i64)
+            | (self.is_pending_send_capacity as i64) << 1
+            | (self.is_pending_accept as i64) << 2
+            | (self.is_pending_window_update as i64) << 3
+            | (self.is_pending_open as i64) << 4
+            | (self.reset_at.is_some() as i64) << 5;
+        vec![
+            self.verif_serial,
+            u32::from(self.id) as i64,
+            index,
+            self.ref_count as i64,
+            mask,
+        ]
     }
 }
